@@ -75,14 +75,22 @@ pub mod memory {
     pub fn max_layout(a: Layout, b: Layout) -> (r: Layout) { unimplemented!() }
 }
 
-/// precondition of gcd_ext on two `Large` operands (besides large_wf): a resource bound (room for the top quotient word of
-/// the cofactor) and the EXCLUSION OF A KNOWN DEFECT: when the smaller operand DIVIDES the larger one and is more than two
-/// words shorter, the residue buffer is shorter than the divisor and div::div_rem_in_place panics
-/// (`assertion failed: lhs.len() >= rhs.len() && rhs.len() >= 2`), e.g. gcd_ext(2^320, 2^128)
+/// precondition of gcd_ext on two `Large` operands (besides large_wf): a resource bound only (room for the top quotient
+/// word of the cofactor).  (Until the fix of gcd_ext_large -- residue buffer at least as long as the divisor -- this
+/// predicate also had to exclude the case "the smaller operand divides the larger one and is more than two words shorter",
+/// where div::div_rem_in_place panicked, e.g. gcd_ext(2^320, 2^128).)
 pub open spec fn gcd_ext_large_pre(ls: Seq<Word>, rs: Seq<Word>) -> bool {
     &&& ls.len() + 1 < max_capacity()
     &&& rs.len() + 1 < max_capacity()
-    &&& ((val(ls) % val(rs) != 0 && val(rs) % val(ls) != 0) || (ls.len() <= rs.len() + 2 && rs.len() <= ls.len() + 2))
+}
+
+/// value of a sequence whose words from k on are zero
+pub proof fn lemma_val_prefix(s: Seq<Word>, k: int)
+    requires 0 <= k <= s.len(), forall|j: int| k <= j < s.len() ==> s[j] == 0,
+    ensures val(s) == val(s.subrange(0, k)),
+{
+    lemma_valn_zero(s, k, s.len() as int);
+    lemma_valn_ext(s, s.subrange(0, k), k);
 }
 
 pub open spec fn gcdo_bez(a: int, l: int, b: int, r: int) -> int { a * l + b * r }
@@ -264,6 +272,7 @@ pub proof fn lemma_gcdo_residue(l: int, r: int, g: int, bs: Sign, bm: int) -> (m
     }
 }
 
+/// (HISTORICAL, no longer used by the proof of gcd_ext_large: it characterised the defect region repaired by proposed_fixes/G1)
 /// the residue buffer (rhs_len + b_len + 1 words) is at least as long as lhs unless rhs divides lhs and lhs is more
 /// than two words longer (the region of the known defect: there the real code trips an assertion of the division)
 pub proof fn lemma_gcdo_residue_len(l: int, r: int, g: int, bm: int, m: int, sgn_pos: bool, ll: int, rl: int, bl: int)
